@@ -18,7 +18,7 @@ type c11Case struct {
 
 func checkC11(c *Ctx) {
 	reps := c.Pick(40, 300)
-	c.rule = fmt.Sprintf("repetition monitor: every program of a corpus aimed at hash-map iteration sites (dictionary equality / 包含 / 寻找 with >=3 keys, 解析JSON of objects with >=5 keys then display / iterate / regenerate, import-all with colliding export names across two modules, selective imports, objects of types with many defaults, input expressions that fail in two places, uncaught errors raised inside nested calls, one HTTP request with 8 headers and 6 query keys served repeatedly through ZnHttpHandler) plus samples of the generated corpora of C01/C02/C07/C09/C12 is executed %d times in one process; result, display trace and error text must be identical across repetitions. A canary ranges over a 6-key Go map the same number of times and records how many distinct orders it saw (shows that the runtime's randomisation was live). distinct_nontrivial = distinct (family, program) with at least one dictionary / module / object in play", reps)
+	c.rule = fmt.Sprintf("repetition monitor: every program of a corpus aimed at hash-map iteration sites (dictionary equality / 包含 / 寻找 with >=3 keys, also with entries mixing equal, different, ill-typed and non-comparable values (objects) so that two entries could each decide the outcome, 解析JSON of objects with >=5 keys then display / iterate / regenerate, import-all with colliding export names across two modules, selective imports, objects of types with many defaults, input expressions that fail in two places, uncaught errors raised inside nested calls, one HTTP request with 8 headers and 6 query keys served repeatedly through ZnHttpHandler) plus samples of the generated corpora of C01/C02/C07/C09/C12 is executed %d times in one process; result, display trace and error text must be identical across repetitions. A canary ranges over a 6-key Go map the same number of times and records how many distinct orders it saw (shows that the runtime's randomisation was live). distinct_nontrivial = distinct (family, program) with at least one dictionary / module / object in play", reps)
 	c.assumptions = []string{"each repetition draws fresh hash-map iteration orders from the Go runtime (canary reported in the evidence)", "取随机数 is never called"}
 	rng := c.Rand("c11")
 	cases := []c11Case{}
@@ -54,6 +54,56 @@ func checkC11(c *Ctx) {
 			b[diff] = 99 // first key equal, some later ones differ
 			src := fmt.Sprintf("令甲 = %s\n令乙 = %s\n令列 = 【甲，1，乙】\n（显示：甲 为 乙、甲 == 乙、甲 不为 乙、甲 /= 乙）\n（显示：以列（包含：乙）、以【甲】（包含：乙）、以【1，甲】（寻找：乙））\n输出 甲 为 乙\n", lit(a), lit(b))
 			add("dict-equality", fmt.Sprintf("n%d-diff%d", n, diff), src, nil)
+		}
+	}
+	// a2. dictionaries whose entries mix comparable and non-comparable values (objects), equal
+	// and different ones: which entry decides (an error or 假) must not depend on the order in
+	// which the implementation happens to visit the entries
+	rels := []string{"eq", "ne", "obj", "null", "mismatch", "list-ne", "list-obj", "dict-ne", "null-vs-num"}
+	relVals := func(rel string, i int) (string, string) {
+		switch rel {
+		case "eq":
+			return fmt.Sprint(i), fmt.Sprint(i)
+		case "ne":
+			return fmt.Sprint(i), fmt.Sprint(i + 100)
+		case "obj":
+			return "物", "物"
+		case "null":
+			return "空", "空"
+		case "mismatch":
+			return fmt.Sprint(i), fmt.Sprintf("“%d”", i)
+		case "list-ne":
+			return fmt.Sprintf("【1，%d】", i), fmt.Sprintf("【1，%d】", i+1)
+		case "list-obj":
+			return "【1，物】", "【1，物】"
+		case "dict-ne":
+			return fmt.Sprintf("【“x” = %d，“y” = 2】", i), fmt.Sprintf("【“x” = %d，“y” = 3】", i)
+		}
+		return "空", fmt.Sprint(i)
+	}
+	for i := 0; i < c.Pick(60, 600); i++ {
+		n := 3 + rng.Intn(4)
+		la, lb := []string{}, []string{}
+		used := []string{}
+		for k := 0; k < n; k++ {
+			rel := rels[rng.Intn(len(rels))]
+			if k == 0 && i%2 == 0 {
+				rel = "obj"
+			}
+			if k == 1 && i%2 == 0 {
+				rel = []string{"ne", "mismatch", "list-ne", "dict-ne", "null-vs-num"}[rng.Intn(5)]
+			}
+			used = append(used, rel)
+			va, vb := relVals(rel, k)
+			la = append(la, fmt.Sprintf("“键%c” = %s", nameGlyphs[k], va))
+			lb = append(lb, fmt.Sprintf("“键%c” = %s", nameGlyphs[k], vb))
+		}
+		if rng.Intn(3) == 0 { // same entries, different insertion order
+			rng.Shuffle(len(lb), func(x, y int) { lb[x], lb[y] = lb[y], lb[x] })
+		}
+		pre := fmt.Sprintf("定义物类：\n\t其数 = 1\n令物 = （新建物类）\n令甲 = 【%s】\n令乙 = 【%s】\n", strings.Join(la, "，"), strings.Join(lb, "，"))
+		for oi, op := range []string{"输出 甲 为 乙", "输出 甲 == 乙", "输出 甲 不为 乙", "输出 以【1，甲】（包含：乙）", "输出 以【1，甲】（寻找：乙）", "输出 【甲，2】 为 【乙，2】"} {
+			add("dict-equality-mixed", fmt.Sprintf("%s/op%d/%d", strings.Join(used, ","), oi, i), pre+op+"\n", nil)
 		}
 	}
 	// b. parsed JSON
